@@ -46,6 +46,12 @@ WithLocs(d, mesh) ==
                                 lf |-> CodeLF(d.kind), le |-> CodeLE(d.kind), glob |-> <<>>]]
   IN [pre EXCEPT !.loc.glob = DofLocsImpl(pre)]
 
+\* dimensions the numbering code may read for an element on a mesh of this kind: the reference-cell dimension
+\* (current code).  MC_C04_olddim.cfg overrides it by DimsReadOld: element.dim of a vector wrapper = its number of
+\* components 1..4 -- the reading before fix bb3ad7e, which TLC must refute.
+DimsRead(kind)    == {Dim(kind)}
+DimsReadOld(kind) == 1..4
+
 VARIABLES m, c, sig, failed
 vars == <<m, c, sig, failed>>
 
@@ -56,10 +62,10 @@ Connect == /\ c = <<>>
            /\ UNCHANGED <<m, sig, failed>>
 \* step 2: number the DOFs of one signature and evaluate the clauses on the result
 Number == /\ c # <<>> /\ sig = <<>>
-          /\ \E s \in Sigs(m.kind) :
+          /\ \E s \in Sigs(m.kind) : \E dr \in DimsRead(m.kind) :
                 /\ sig' = s
                 /\ failed' = Failed(NumberClauses(WithLocs(
-                      NumberDofsImpl(m.kind, m.nv, Len(c.edges), Len(c.facets), m.t, c.t2e, c.t2f, s), m)))
+                      NumberDofsImplRead(m.kind, dr, m.nv, Len(c.edges), Len(c.facets), m.t, c.t2e, c.t2f, s), m)))
           /\ UNCHANGED <<m, c>>
 Next == Connect \/ Number
 Spec == Init /\ [][Next]_vars
